@@ -11,7 +11,10 @@ RULE = ("every DAG(n) n<=4 with every disjoint (L,S) (3^n assignments) and every
         "ADMG(n) n<=3 with every (L,S) for inducing_path (ADMG(4) sampled in thorough); the 120 relabellings of a 5-node witness of "
         "the visit-order dependence; seeded random DAGs/ADMGs 5<=n<=8 "
         "(where the order dependence of the shared visited set shows). distinct by (canonical graph, L, S, label family); "
-        "non-trivial = some returned inducing path has an inner node")
+        "non-trivial = some returned inducing path has an inner node. "
+        "repeat stream (same object): every ADMG(n<=3) x every single directed-edge edit (add/remove/reverse) x 8 (L,S), plus 300 "
+        "(3000) random n<=6 graphs with 1-2 edits: all pairs are queried (and dag_to_mag called) on G0, results discarded, G0 is "
+        "edited in place and the judged calls run on the same object against the model of the final graph")
 EXHAUSTIVE = {"quick": "DAG(n) x all disjoint (L,S) x all ordered pairs, n<=4 (n<=3 under all 7 label families); ADMG(n) n<=3 likewise",
               "thorough": "same as quick, plus every DAG(5) with 6 seeded (L,S)"}
 TRUSTED = ["networkx ancestors / predecessors / all_neighbors taken at face value",
@@ -38,8 +41,72 @@ def mk(kind, g, L, S, dag, lab=None, oracle=None):
     return c
 
 
+def single_edits(g):
+    """all graphs reached from g by adding / removing / reversing ONE directed edge (directed part stays acyclic)"""
+    D = [tuple(e) for e in g["D"]]
+    out = []
+    for a in g["V"]:
+        for b in g["V"]:
+            if a != b and (a, b) not in D and (b, a) not in D:
+                out.append(D + [(a, b)])
+    for e in D:
+        rest = [f for f in D if f != e]
+        out.append(rest)
+        out.append(rest + [(e[1], e[0])])
+    return [dict(g, D=[list(e) for e in d]) for d in out if gr.is_acyclic(g["V"], d)]
+
+
+def random_edit(rng, g, bidir=True):
+    """1-2 random edits (add / remove / reverse a directed edge, toggle a bidirected one)"""
+    h = g
+    for _ in range(rng.randint(1, 2)):
+        if bidir and rng.random() < 0.25 and len(h["V"]) >= 2:
+            a, b = sorted(rng.sample(h["V"], 2))
+            B = [e for e in h["B"] if sorted(e) != [a, b]]
+            h = dict(h, B=B if len(B) < len(h["B"]) else B + [[a, b]])
+        else:
+            c = single_edits(h)
+            if c:
+                h = rng.choice(c)
+    return h
+
+
+def apply_edits(A, lab, g0, g):
+    """turn the object built from g0 into g IN PLACE (removals first, so a reversal is remove + add)"""
+    for k, name, sym in (("D", "directed", False), ("B", "bidirected", True), ("U", "undirected", True)):
+        norm = (lambda e: tuple(sorted(e))) if sym else tuple
+        old, new = {norm(e) for e in g0[k]}, {norm(e) for e in g[k]}
+        for a, b in sorted(old - new):
+            A.remove_edge(lab(a), lab(b), name)
+        for a, b in sorted(new - old):
+            A.add_edge(lab(a), lab(b), name)
+
+
+def repeat_cases(tier, rng):
+    """same-object stream: queries on G0 are run and discarded, G0 is edited in place to G, the judged queries run on
+    the SAME object and are compared with the model of G (a stale cache keyed by graph identity shows here only)"""
+    for n in (2, 3):
+        for g0 in gr.enum_admg(n):
+            lss = list(all_ls(g0["V"]))
+            for g in single_edits(g0):
+                for L, S in [lss[0]] + rng.sample(lss[1:], 7 if n == 3 else 3):
+                    c = mk("repeat%d" % n, g, L, S, not g["B"])
+                    c["g0"] = g0
+                    yield c
+    for i in range(300 if tier == "quick" else 3000):
+        n = rng.randint(4, 6)
+        dag = rng.random() < 0.5
+        g0 = gr.random_kinds_graph(rng, n, gr.DAG_KINDS if dag else ["none", "->", "<-", "<->"], p_edge=rng.choice([0.3, 0.5]))
+        g = random_edit(rng, g0, bidir=not dag)
+        a = [rng.choice((0, 0, 0, 1, 1, 2)) for _ in g["V"]]
+        c = mk("repeat-rand", g, [v for v in g["V"] if a[v] == 1], [v for v in g["V"] if a[v] == 2], dag)
+        c["g0"] = g0
+        yield c
+
+
 def gen_cases(tier, rng):
     quick = tier == "quick"
+    yield from repeat_cases(tier, rng)
     for n in (1, 2, 3, 4):
         for g in gr.enum_dag(n):
             for L, S in all_ls(g["V"]):
@@ -98,7 +165,21 @@ def decode(case, v):
 
 def run_impl(case):
     from pywhy_graphs.algorithms import generic
-    A, lab, inv = gr.to_admg(case["g"], case)
+    if case.get("g0") is not None:
+        A, lab, inv = gr.to_admg(case["g0"], case)
+        for x, y in case["qs"]:                       # warm-up on G0, results discarded
+            try:
+                generic.inducing_path(A, lab(x), lab(y), {lab(v) for v in case["L"]}, {lab(v) for v in case["S"]})
+            except Exception:  # noqa
+                pass
+        if case["dag"] and not case["g0"]["B"]:
+            try:
+                generic.dag_to_mag(A, {lab(v) for v in case["L"]}, {lab(v) for v in case["S"]})
+            except Exception:  # noqa
+                pass
+        apply_edits(A, lab, case["g0"], case["g"])    # same object from here on
+    else:
+        A, lab, inv = gr.to_admg(case["g"], case)
     ind = []
     for x, y in case["qs"]:
         try:
@@ -155,10 +236,40 @@ def nontrivial(case, model):
 
 
 def key(case):
-    return (gr.canon(case["g"]), tuple(case["L"]), tuple(case["S"]), case.get("_lab", "int"))
+    return (gr.canon(case["g"]), gr.canon(case["g0"]) if case.get("g0") else None, tuple(case["L"]), tuple(case["S"]),
+            case.get("_lab", "int"))
+
+
+def shrink_repeat(case):
+    """keep g0 and g on one node set: drop a node from both, or an edge from either"""
+    g0, g = case["g0"], case["g"]
+    for v in g["V"]:
+        f = lambda h: {"V": [w for w in h["V"] if w != v], **{k: [e for e in h[k] if v not in e] for k in "DBUC"}}  # noqa
+        yield dict(case, g0=f(g0), g=f(g), L=[w for w in case["L"] if w != v], S=[w for w in case["S"] if w != v],
+                   qs=[q for q in case["qs"] if v not in q])
+    for which in ("g0", "g"):
+        for k in "DB":
+            for i in range(len(case[which][k])):
+                h = dict(case[which])
+                h[k] = h[k][:i] + h[k][i + 1:]
+                if which == "g" and case["dag"] and h["B"]:
+                    continue
+                yield dict(case, **{which: h})
+    for v in case["L"]:
+        yield dict(case, L=[w for w in case["L"] if w != v])
+    for v in case["S"]:
+        yield dict(case, S=[w for w in case["S"] if w != v])
+    if case["dag"]:
+        yield dict(case, dag=False)
+    elif len(case["qs"]) > 1:
+        for q in case["qs"]:
+            yield dict(case, qs=[q])
 
 
 def shrink(case):
+    if case.get("g0") is not None:
+        yield from shrink_repeat(case)
+        return
     for h in gr.shrink_graph(case["g"]):
         vs = set(h["V"])
         yield dict(case, g=h, L=[v for v in case["L"] if v in vs], S=[v for v in case["S"] if v in vs],
@@ -179,7 +290,9 @@ def shrink(case):
 LEVEL_TEXT = ("Coq proof + correspondence. Unbounded theorems (all graphs, all L,S): inducing_exact / inducing_witness (the model's "
               "search returns True iff an inducing path relative to <L,S> exists - simple step path, inner nodes colliders or in L, "
               "colliders in An({x,y} u S), endpoints outside L u S - and the returned node list is one), mag_nodes (node set = V \\ (L u S)), "
-              "mag_marks (->, <-, <->, -- exactly by the four ancestry cases). Bounded theorems, kernel computation over ALL DAGs on "
+              "mag_marks (->, <-, <->, -- exactly by the four ancestry cases), node_level_exact (the search with the code's node-level "
+              "_is_collider test decides the same edge-level definition on well-formed acyclic graphs without undirected edges, bows "
+              "allowed). Bounded theorems, kernel computation over ALL DAGs on "
               "<= 4 nodes x all disjoint (L,S) x all ordered pairs x all Z, lifted to the path-based Props msep/dsep with msep_dec_spec: "
               "mag_adjacency_bounded_4 (adjacent iff no set of other observed nodes d-separates given Z u S) and "
               "mag_independence_bounded_4 (m-separation given Z in the MAG iff d-separation given Z u S in the DAG). The same two clauses "
@@ -189,6 +302,7 @@ LEVEL_NOTE = ("The full Richardson-Spirtes/Zhang marginalisation theorem (Spec.m
               "kernel is out of reach (about 6 CPU-hours of vm_compute). Bounded theorems quantify over arbitrary edge lists E and node "
               "lists L0,S0 through their canonical listing on nodes 0..n-1 (dag_of, L_of, S_of). The model is the repaired search "
               "(un-mark on backtrack, ==, {A}, add_nodes_from): on the unpatched /repo the check reports the four defects as VIOLATIONs; "
-              "fix proposals fixes/C06-*.patch. Paths are edge-level (a step names its layer); the code's node-level collider test "
-              "agrees with it on acyclic ADMGs (observed on every case, not proved).")
+              "fix proposals fixes/C06-*.patch. Paths are edge-level (a step names its layer); that the code's node-level collider test "
+              "(_is_collider) decides the same definition on acyclic D/B graphs incl. bows is proved (node_level_exact), and fails "
+              "with a 2-cycle (node_level_needs_acyclic).")
 TECHNIQUE = "Coq proof (enumeration exactness unbounded; marginalisation clauses by vm_compute for n<=4) + extracted-model correspondence"
